@@ -41,9 +41,9 @@ def cases(tier):
         # network; mechanism: uniqueness for monotone loss laws)
         if len(c["edges"]) >= c["n"] and any(v in ("pump", "compressor") for k, v in c["point"].items() if k.startswith("e")):
             continue
-        # labels that differ from the table position (descending): a start value written by label instead of through the
+        # labels that differ from the table position (reversed 0..n-1): a start value written by label instead of through the
         # lookup lands on another junction
-        c = dict(c, point=dict(c["point"], labels="desc"))
+        c = dict(c, point=dict(c["point"], labels="rev"))
         out.append({"kind": "pn", "base": c, "steep": False, "tier": tier})
         if c["fluid"] != "water" and not c["dev"]:
             out.append({"kind": "pn", "base": c, "steep": True, "tier": tier})
